@@ -10,7 +10,7 @@ def parseVar (s : String) : Option Var :=
   | [a, b, r, al, c, i] =>
     some { start := a.toNat!, stop := b.toNat!, ref := r.toList, alt := al.toList,
            cls := if c == "S" then .snv else if c == "I" then .indel else .other,
-           ids := [i.toNat!], touch := if c == "D" then a.toNat! + 1 else a.toNat! }
+           ids := (i.splitOn "+").map String.toNat!, touch := if c == "D" then a.toNat! + 1 else a.toNat! }
   | _ => none
 
 def mkCfg (rule exc misc minMw minLen maxLen sect w2f canon : String) : Option Cfg := do
@@ -96,6 +96,12 @@ def handle (st : Option SCase) (args : List String) : Option SCase × String :=
       (st, match witnessCompletion g c.t c.vs ((splitList ids ',').map String.toNat!) pep.toList with
            | none => "none"
            | some e => "extra:" ++ natList e)
+  | ["winside", ids, extra, pep] =>
+    match st with
+    | none => (st, "no-case")
+    | some c =>
+      (st, if omittedInside c.t c.vs ((splitList ids ',').map String.toNat!)
+              ((splitList extra ',').map String.toNat!) pep.toList then "inside" else "outside")
   | ["novelorf", seq, rule, exc, misc, minMw, minLen, maxLen, w2f, canon] =>
     match mkCfg rule exc misc minMw minLen maxLen "0" w2f canon with
     | none => (st, "bad-rule")
